@@ -6,7 +6,7 @@ import vlib
 def translator_selfcheck(ck, rb, mism, n=1):
     try:
         h = rb.compile_harness(os.path.join(vlib.VERIF, "harness", "h_leaf.c"), os.path.join(vlib.scratch(), "h_leaf"),
-                               objs=["ip.o", "cdb.a", "cdbmake.a", "case.a", "fs.a", "stralloc.a", "error.a", "str.a"])
+                               objs=["ip.o", "fmtqfn.o", "auto_split.o", "date822fmt.o", "datetime.a", "cdb.a", "cdbmake.a", "case.a", "fs.a", "stralloc.a", "error.a", "str.a"])
     except vlib.HarnessBuildError as e:
         mism.append(dict(kind="translator", what="harness/h_leaf.c does not build", log=str(e)[-600:])); return
     try:
@@ -18,6 +18,7 @@ def translator_selfcheck(ck, rb, mism, n=1):
     def rb_(k, alpha=None): return bytes(rng.choice(alpha) if alpha else rng.randrange(256) for _ in range(k))
     def nz(b): return bytes(c or 1 for c in b)
     L = []
+    split = int(open(os.path.join(rb.dir, "conf-split")).readline().split()[0])      # auto_split, as the build derives it
     for _ in range(60 * n):
         s = rb_(rng.choice([0, 1, 2, 3, 4, 5, 7, 8, 9, 31, 64]), rng.choice([None, b"AZaz@[`{", b"abc"]))
         t = bytes((c ^ 0x20) if (65 <= c <= 90 or 97 <= c <= 122) and rng.random() < 0.5 else c for c in s)
@@ -32,6 +33,8 @@ def translator_selfcheck(ck, rb, mism, n=1):
         d = rng.choice([b"", b"0", b"007", b"12345", b"18446744073709551615", b"18446744073709551616", b"99999999999999999999999", b"12x", b"x", b"777", b"1777777777777777777777", b"89"])
         ipt = rng.choice([b"1.2.3.4", b"[127.0.0.1]", b"[300.1.1.1]x", b"[1.2.3]", b"[1.2.3.4", b"[]", b"", b"[1..2.3]", b"[18446744073709551617.0.0.1]", b"[1.2.3.4]]", b"[01.002.3.4]", b"9.9.9.9.9"])
         L += ["ip_scan " + hx(ipt.strip(b"[")), "ip_scanbracket " + hx(ipt), "ip_fmt " + hx(rb_(4)), "quote_doit " + hx(rb_(rng.choice([0, 1, 2, 5, 40]), rng.choice([None, b'ab"\\\r\n']))) ]
+        L += ["safeput " + hx(nz(rb_(rng.choice([0, 1, 3, 9, 40]), rng.choice([None, None, b"az[]\\^_`{@-.%+/=: \x7f\x80\xff"])))),
+              "fmtqfn %s %d %d %d" % (hx(rng.choice([b"mess/", b"intd/", b"todo/", b"", b"info/", b"a" * 40])), rng.choice([u, u % 100000, 0, 22, 23, 24]), rng.choice([0, 1, 1, -1, 256]), split)]
         L += ["hashadd %d %d" % (u % 2 ** 32, rng.randrange(256)), "unpack " + hx(rb_(4)), "pack %d" % (u % 2 ** 32), "scan_ulong " + hx(d + rng.choice([b"", b" ", b"a"])),
               "scan_8long " + hx(d), "fmt_ulong %d" % u, "fmt_uint0 %d %d" % (u % 2 ** 32, rng.choice([0, 1, 5, 12, 20]))]
     a, _, _ = vlib.run_lines(h, L)
